@@ -656,6 +656,23 @@ fn sweep_scene<C: MlsConfig>(rng: &mut Rng, mk: Mk<C>, out: &mut Out, prefixes: 
     // (a re-init proposed by C itself cannot be combined with PSKs: C forgets it first; its own by-reference PSK / Add
     // proposals get a sweep of their own)
     if flavor == Flavor::ByRef && !out.skip_byref_build {
+        // one more cached proposal for C: B proposes, by reference, the resumption PSK of the previous epoch, which C — having
+        // written its state — holds only in STORAGE: the lookup while C validates its cache goes to the group-state storage,
+        // and a failing storage call there must fail the build as well (not drop the proposal as "unresolvable")
+        let ce = w.group(2).current_epoch();
+        if ce >= 1 && w.group(1).current_epoch() == ce {
+            let (rw, _) = w.with_group(2, |g| g.write_to_storage());
+            if rw.ok() {
+                w.members[2].wrote = true;
+                let (_, pm) = w.with_group(1, |g| g.propose_resumption_psk(ce - 1, vec![]));
+                if let Some(pm) = pm {
+                    let (rp, _) = w.with_group(2, |g| g.process_incoming_message(pm));
+                    if rp.ok() {
+                        out.cover.insert("byref-resumption-psk-of-a-stored-epoch".into());
+                    }
+                }
+            }
+        }
         build_byref_sweep(&mut w, 2, prefixes, out, tag);
     }
     if flavor == Flavor::ReInit || flavor == Flavor::ByRef {
